@@ -391,7 +391,9 @@ pub(crate) fn scenario(chooser: Chooser, sc: &Script, faults: bool, track: bool)
     // ---- quiescence (C20): once every call completed, after a quiet period longer than any
     // request timeout the node must hold no per-call state
     let mut leaks: Vec<(String, String)> = vec![];
-    if problems.is_empty() && w.nodes[a].alive {
+    // (also when a call is still pending after the horizon: a caller parked although nothing
+    // is in flight any more is a leak in its own right)
+    if w.nodes[a].alive {
         let quiet = w.snapshot(a).socket.request_timeout.as_nanos() as u64 + 2 * SEC;
         let h = w.now + quiet;
         w.run_until(h, |w, ev| {
